@@ -1107,6 +1107,7 @@ def lock11(cfg):
             work = [fail_succ]
             bad = None
             nret = 0
+            loops_back = False
             while work:
                 x = work.pop()
                 stop = False
@@ -1120,10 +1121,20 @@ def lock11(cfg):
                 if stop:
                     continue
                 for y in f.succs(x):
+                    if y == b:
+                        loops_back = True
                     if y is not None and y != b and y not in seen:
                         seen.add(y)
                         work.append(y)
             ok = bad is None
+            if ok and loops_back and e['name'] == 'must_restart':
+                # the failing side comes round to the SAME test without having returned: the lock step is retried from inside
+                # the operation.  For must_restart() "failed" means the node is obsolete, which is final - the retry can never
+                # succeed and the thread spins for ever although nobody holds a lock (the restart result would have re-run the
+                # whole operation from the root, where the node is no longer reachable)
+                res.ob(False, {'rule': 'LOCK-11', 'function': sh(f.name)[:90], 'site': fileline(e.get('loc')), 'test': e['name'], 'verdict': 'VIOLATION: retried in place'})
+                res.find(f, e.get('loc'), '%s: when must_restart() reports an obsolete node at %s the function does not return the restart result but loops back to the same lock step: obsolete is final, so the step fails again and again - the operation never returns although no thread holds a lock (a scan spinning on a removed node)' % (f.short, fileline(e.get('loc'))), key='LOCK-11:%s:retry-in-place' % f.short, config=cfg.name)
+                continue
             res.ob(ok, {'rule': 'LOCK-11', 'function': sh(f.name)[:90], 'site': fileline(e.get('loc')), 'test': e['name'], 'returns_on_failing_side': nret, 'verdict': 'restart only' if ok else 'VIOLATION'})
             if not ok:
                 res.find(f, bad.get('loc'), '%s: after %s() %s at %s the function returns a definitive result instead of the restart result: the lock step has just shown that the data read so far may be inconsistent (the node may be obsolete or being rewritten), so e.g. "key absent" can be reported for a key that is present throughout' % (f.short, e['name'], 'failed' if not failval else 'reported a restart', fileline(e.get('loc'))),
